@@ -41,7 +41,7 @@ def split_key_string(key: ObjT) -> Tup(Opt(Int), Opt(Enum('Mode', ['major', 'min
 def weighted_score(reference_key: ObjT, estimated_key: ObjT) -> Real:
     raises(ValueError, when=not (valid_key(reference_key) and valid_key(estimated_key)), props="C14")
     ensures(result == key_table(key_is_x(reference_key), key_tonic(reference_key), key_mode(reference_key),
-                                key_is_x(estimated_key), key_tonic(estimated_key), key_mode(estimated_key)), label='table', props="C04")
+                                key_is_x(estimated_key), key_tonic(estimated_key), key_mode(estimated_key)), label='table', props="C04 C09")
     ensures(result == 0 or result == 0.2 or result == 0.3 or result == 0.5 or result == 1, label='range', props="C01")
     ensures(implies(reference_key == estimated_key, result == 1), label='perfect', props="C02")
 
